@@ -29,8 +29,10 @@ theorem tables_of_encodeDoc (f : OdsFeatures) (d : OdsDoc) :
 
 /-- **Partial.** For every document, every sheet number inside it and any encoding that uses at most
 column runs (`table:number-columns-repeated`), reading sheet `k` returns exactly the rows and cell
-texts of the k-th sheet (empty cells as empty strings). -/
-theorem C15_decode_encode_partial (f : OdsFeatures) (hf : f.plain) (d : OdsDoc) (k : Nat) (hk1 : 1 ≤ k) (hk2 : k ≤ d.length) :
+texts of the k-th sheet (empty cells as empty strings).  Rows are narrower than `10 ^ 4300` cells: a
+repeat count with more digits than that is beyond CPython's `int()` conversion limit. -/
+theorem C15_decode_encode_partial (f : OdsFeatures) (hf : f.plain) (d : OdsDoc) (k : Nat) (hk1 : 1 ≤ k) (hk2 : k ≤ d.length)
+    (hsmall : ∀ r ∈ d[k - 1]'(by omega), r.length < 10 ^ maxStrDigits) :
     odsRows (some (encodeDoc f d)) k = .rows ((d[k - 1]'(by omega)).map (·.map some)) := by
   unfold odsRows
   simp only [tables_of_encodeDoc, List.length_map, List.length_zipIdx]
@@ -49,7 +51,7 @@ theorem C15_decode_encode_partial (f : OdsFeatures) (hf : f.plain) (d : OdsDoc) 
     unfold encodeSheet Xml.childrenTagged Xml.children
     simp only [hr, Bool.false_eq_true, if_false]
     exact filter_tag_map _ "table:table-row" _ (fun a => rfl)
-  rw [hrows, odsRowsOf_encoded f ⟨hr, by assumption, by assumption, by assumption⟩]
+  rw [hrows, odsRowsOf_encoded f ⟨hr, by assumption, by assumption, by assumption⟩ _ hsmall]
 
 /-- Requesting a sheet the document does not have fails with a data-format error. -/
 theorem C15_missing_sheet (f : OdsFeatures) (d : OdsDoc) (k : Nat) (h : d.length < k) :
@@ -84,5 +86,6 @@ theorem C15_paragraphs_counterexample :
 example : odsRows (some (encodeDoc { colRuns := true } [[[['x']]], [[['a'], ['a'], ['a'], []], [['b']]]])) 2
     = .rows [[some ['a'], some ['a'], some ['a'], some []], [some ['b']]] :=
   C15_decode_encode_partial { colRuns := true } ⟨rfl, rfl, rfl, rfl⟩ _ 2 (by decide) (by decide)
+    (by intro r hr; simp at hr; rcases hr with rfl | rfl <;> simp [maxStrDigits] <;> exact Nat.lt_of_lt_of_le (by decide : _ < 10 ^ 1) (Nat.pow_le_pow_right (by decide) (by decide)))
 
 end Cutplace.Props
